@@ -16,12 +16,15 @@
   Proved for every plan tree and every JSON document (no shape hypothesis):
     • no_error_means_projection : a response without errors is the projection of the UNCHANGED subgraph data
     • welltyped_projects : on plan-directed well-typed data (`WT`) there is no error, `data` is not null and is that projection
-  Not proved (differential run and Go oracles only): the PATH of each reported error is the response path of the
-  offending position; which ancestor is nulled (the nearest nullable one).
+    • errors_located_below_the_node : the errors a node's walk adds lie at or below the response path of that node, and
+      the walk restores the path (errors of one subtree are never attributed to another)
+  Not proved (differential run and Go oracles only): that the path of each reported error is EXACTLY the response path of
+  the offending position; which ancestor is nulled (the nearest nullable one).
 -/
 import GqlVerif.Proofs.C02
 import GqlVerif.Proofs.C02Safe
 import GqlVerif.Proofs.C02Proj
+import GqlVerif.Proofs.C02Path
 namespace GqlVerif.Props.C02
 open GqlVerif GqlVerif.Render
 
@@ -119,6 +122,14 @@ theorem welltyped_projects (root : Node) (data : Json) (h : WT root data []) :
     simp only
     split <;> simpa using this
   exact ⟨he, no_error_means_projection root data he⟩
+
+/-- **errors_located_below_the_node** (∀ trees, ∀ data, ∀ walk states): the walk of a node keeps the errors recorded so
+    far, every error it adds has a path that extends the response path at which the walk started, and the path is restored
+    afterwards — so the errors of one subtree are never attributed to a position outside it. -/
+theorem errors_located_below_the_node (n : Node) (c : Json) (st : St) :
+    (∃ new, (preNode n c st).st.errs = st.errs ++ new ∧ ∀ e ∈ new, st.path <+: e.path) ∧
+      (preNode n c st).st.path = st.path :=
+  preNode_located n c st
 
 /-- the response keys a field list selects under a stack of runtime type names -/
 def selectedNames : Fields → List (Option String) → List String
